@@ -62,6 +62,17 @@ EU_C10_DocsE == SetToSeq({ LET e == <<<<EU_KA, x>>, <<EU_KB, y>>, <<EU_KC, z>>>>
                            IN SD("dict", NoVal, <<e[pi[1]], e[pi[2]], e[pi[3]]>>)
                            : x \in EU_EX, y \in EU_EY, z \in EU_EZ, pi \in EU_Perm3 })
 
+\* f-strings `{name}` as consumers of scalars (also of what a call returned: None), in every key order
+EU_FStrN(key) == [SD("fstr", Atom("s", "f'{" \o key \o "}'"), <<>>) EXCEPT !.form = "tag", !.ref = <<SKey(key)>>]
+\* (the text of an object / container is not modelled: no f-string over b when b is a call)
+EU_FTriples == {t \in {EU_L("1"), EU_CallF("vmod.recnone"), SD("scalar", Atom("s", "x"), <<>>), SD("scalar", Atom("b", "T"), <<>>)}
+                       \X {EU_FStrN("a"), EU_Call(<<<<EU_KA, EU_FStrN("a")>>>>), EU_FStrN("zz")}
+                       \X {EU_FStrN("a"), EU_XRef(<<EU_KB>>), EU_FStrN("b")}
+                : ~(t[2].k = "call" /\ t[3] = EU_FStrN("b"))}
+EU_C10_DocsF == SetToSeq({ LET e == <<<<EU_KA, t[1]>>, <<EU_KB, t[2]>>, <<EU_KC, t[3]>>>>
+                           IN SD("dict", NoVal, <<e[pi[1]], e[pi[2]], e[pi[3]]>>)
+                           : t \in EU_FTriples, pi \in EU_Perm3 })
+
 \* a call whose target builds an independent config of its own while this one is being evaluated (vmod.recbuild), between a
 \* producer and its later consumers, in every key order
 EU_NX == {EU_XRef(<<EU_KA>>), EU_Call(<<<<EU_KA, EU_XRef(<<EU_KA>>)>>>>),
